@@ -274,11 +274,21 @@ def seq_concat(a, b):
         return b
     a, b = to_sseq(a), to_sseq(b)
     na = a.length
+    lazy = getattr(a, "lazy", False) or getattr(b, "lazy", False)
 
     def getter(i):
-        return ite(i < na, a.get(i), b.get(i - na)) if not isinstance(i, int) or not isinstance(na, int) else (
-            a.get(i) if i < na else b.get(i - na)
-        )
+        if isinstance(i, int) and isinstance(na, int):
+            return a.get(i) if i < na else b.get(i - na)
+        c = i < na
+        if c is True:
+            return a.get(i)
+        if c is False:
+            return b.get(i - na)
+        if lazy and cur().capture is None:
+            # a part is evaluated on demand and may raise out of range: split the path instead of
+            # evaluating both parts
+            return a.get(i) if cur().branch(c) else b.get(i - na)
+        return ite(c, a.get(i), b.get(i - na))
 
     psum = None
     if a.psum and b.psum:
@@ -286,7 +296,9 @@ def seq_concat(a, b):
         def psum(k):
             return ite(k <= na, a.psum(imin(k, na)), a.psum(na) + b.psum(imax(k - na, 0)))
 
-    return SSeq(na + b.length, getter, a.shape or b.shape, psum, "cat")
+    r = SSeq(na + b.length, getter, a.shape or b.shape, psum, "cat")
+    r.lazy = lazy
+    return r
 
 
 def seq_slice1(s, lo, hi):
@@ -400,7 +412,7 @@ class SObj(Sym):
         self.shape = None
 
     def snapshot(self):
-        o = SObj(self.cls, {k: (v.snapshot() if isinstance(v, (LRef, DRef)) else v) for k, v in self.fields.items()}, self.base_list)
+        o = SObj(self.cls, {k: (v.snapshot() if isinstance(v, (LRef, DRef, ModelObj)) else v) for k, v in self.fields.items()}, self.base_list)
         o.shape = self.shape
         o.__dict__["_trace"] = list(self.__dict__.get("_trace", []))
         return o
@@ -444,3 +456,42 @@ class View:
 
     def __repr__(self):
         return f"View({self._d!r})"
+
+
+class ModelObj(Sym):
+    """Base of abstract-data-type models (heaps, maps, counters, selectors ...): mutable, reference
+    semantics; the interpreter dispatches truthiness, len, subscripts, iteration and method calls here."""
+
+    def py_truth(self, st):
+        return True
+
+    def py_len(self, st):
+        raise Unsupported(f"len of {type(self).__name__}")
+
+    def py_getitem(self, ip, st, idx):
+        raise Unsupported(f"subscript of {type(self).__name__}")
+
+    def py_setitem(self, ip, st, idx, v):
+        raise Unsupported(f"subscript store on {type(self).__name__}")
+
+    def py_delitem(self, ip, st, idx):
+        raise Unsupported(f"del subscript on {type(self).__name__}")
+
+    def py_contains(self, ip, st, x):
+        raise Unsupported(f"'in' on {type(self).__name__}")
+
+    def py_call(self, ip, st, name, args, kwargs):
+        raise Unsupported(f"method {name} of {type(self).__name__}")
+
+    def py_iter(self, ip, st):
+        raise Unsupported(f"iteration over {type(self).__name__}")
+
+    def snapshot(self):
+        import copy
+
+        return copy.copy(self)
+
+    __hash__ = object.__hash__
+
+    def __eq__(self, o):
+        return self is o
